@@ -1,7 +1,9 @@
 """C14 - events resolve their keys through the documented chains and play as
 correctly timed server commands.
 
-Four monitors, all NRT, all against the reference model vf/model_events.py
+Four monitors (round 8: two more shard kinds, `fault` and `control`, on the
+play / timeline oracles - see the end), all NRT, all against the reference
+model vf/model_events.py
 (written from the SuperCollider Event / Scale / pattern documentation, no sc3
 import) and the independent OSC decoder vf/osc.py:
 
@@ -63,6 +65,56 @@ Classes of behaviour added in round 7 (each was a blind spot of the workload):
             Rest objects in `delta` are generated as well (a rest alone and
             below Pdur, so also below Ppar: .../ppar-child-rest-by-rest-valued-
             delta-is-played).
+Classes of behaviour added in round 8:
+
+  an error path followed by continued use (shard kind `fault`)   a play()
+            that FAILS half way - while the pitch chain is resolved, while the
+            control list is built, in the message encoder, in the bundle
+            builder, after the list was stored (add action, group, server),
+            after the /s_new was sent (gate-off) - for every kind of failure a
+            user can cause through the keys of the event (c14_gen.fault_edit:
+            functions of a missing key, raising functions, values the encoder
+            refuses, ints beyond 32 bit, unknown add action, unusable group /
+            server / synth_lib objects, non-numbers in the pitch chain, a bad
+            db on the default parameter list), as the object's first play or
+            after sound plays, once or several times in a row; then the SAME
+            object (or a copy made while it was broken) is repaired by one of
+            the mutators, usually edited elsewhere as well, looked up and
+            played.  What a play of a broken event sends is not decided (its
+            traffic is attributed by its tag and tolerated); every play of an
+            event whose keys are numbers again must send what a fresh event
+            with these keys sends, and the look-ups after the repair resolve
+            from the user's keys.  The key names what the failed play left in
+            the object: C14/play-after-failed-play/failed-play-altered-key/<k>
+            (a chain key the user never gave, or a changed one),
+            .../event-keeps-control-list-of-the-failed-play, else
+            .../differs/<what>.
+  players beside a failing event (`control` shard, form pattern-fault)   the
+            k-th event of a pattern fails while a player plays it; other
+            players on the same pattern objects and the same prototype event
+            object - running at the same time, started later, the failing
+            pattern again - and the events before the failure must be as
+            usual (C14/players-beside-a-failing-event/...).
+  player control (`control` shard)   one EventStreamPlayer under a history of
+            mute / unmute / pause / resume / play / reset / stop / reset +
+            play / play(reset=True) calls, on every clock: "plays event k at
+            its start time plus the sum of the preceding deltas" with the sum
+            starting again where the player is resumed or restarted
+            (me.controlled); a muted player sends nothing and keeps time;
+            calls without effect (resume / play of a player that is not
+            paused, pause twice ...) change nothing
+            (C14/player-control/after-<last call that moves the time
+            line>/<time-line-differs | muted-event-played | message-content-
+            differs>; a difference that disappears when the same history runs
+            on SystemClock: .../on-a-tempo-clock-only/...).
+  entry points no workload entered (`control` shard, form entry)   Pkey
+            columns (also Pkey * a + b, finite length, Rest valued sources),
+            Pevent (dict or event object, nested), Pchain built by .chain()
+            and with three operands - inside the ordinary compositions
+            (C14/timeline-entry/<which>/...: the entry point without which
+            the case passes - Pkey columns written out, Pchain built by the
+            constructor - else Pevent); the db and velocity look-ups of
+            AmplitudeKeys in the chain monitor.
 """
 
 import itertools
@@ -93,10 +145,19 @@ RULE = ("seeded random cases. chain: explicit key sets over the pitch "
         "after the edit, 4 copying constructors; timeline: Rest objects in "
         "any numeric column (scope any / usual keys only / other keys only), "
         "constant Rests, Rest in the prototype event. "
+        "fault: 3-7 step histories on event objects with failing plays (12 "
+        "kinds of fault through the user's keys, first play or later, "
+        "repeated), repair by 8 mutators / on copies, look-ups after the "
+        "repair; control: one player under 1-8 control calls at times that "
+        "never coincide with a wake-up (5 families, 3 clocks), compositions "
+        "with Pkey / Pevent / Pchain.chain, players beside a pattern whose "
+        "k-th event fails; chain: db and velocity looked up for every "
+        "event. "
         "Distinct = hash of the spec. "
         "Kept out (audit 2026-09-26, each justified in AUDIT below): harmonic "
         "!= 1 with an explicit freq, db with velocity without amp, arrayed "
-        "values, function values, negative durations, override keys "
+        "values, function values (but as faults and as repaired functions in "
+        "the fault histories), negative durations, override keys "
         "(send_gate, has_gate, msg_params, gate), unimplemented keys (latency, "
         "lag, timing_offset, strum), event types other than note and rest, "
         "direct play of a rest, rests in an articulated Pmono, a Pmono "
@@ -124,6 +185,32 @@ played event objects: no popitem / clear without re-adding the keys | play()
   those is an override-key case (kept out above)                         | kept out
 stopped player: last wake-up bounded by its next element | NRT leaves the
   pending wake-up of a stopped routine in the queue (harmless)          | bounded
+round 8:
+traffic of a play of a broken event (a key play() cannot resolve / encode):
+  at most one /s_new with its tag and the gate-off of that node | the
+  statement speaks of events with numeric keys                           | tolerated
+a player from its failing event on: traffic with the tags of the later
+  events, end between the failure and the end of the pattern | statement
+  silent (this library ends the player)                                  | tolerated
+function valued keys: only as fault / as `lambda e: e[k] * a + b` of a key
+  the user gives on repair (Event help: called with the event)           | generated
+velocity look-up without a velocity key: within one MIDI step of 127 amp |
+  the rounding of a velocity is not documented                           | tolerated
+control calls: quant 0 always (the default grid of a tempo clock is the
+  quant != 0 case); resume / reset / pause never AT a wake-up; stop only
+  followed by reset + play; play() of a player that was reset while
+  playing (starts at once, documented nowhere) | statement silent        | kept out
+pause / resume / reset histories: sequential patterns without Pmono only
+  (the wake-ups of a Ppar between its events are not modelled; a muted
+  Pmono start is not defined); mute / unmute: any pattern without Pmono   | kept out
+Pkey: source key set by the same Pbind earlier in the mapping (a key of the
+  prototype / of a chained pattern ends the stream in this library,
+  SuperCollider finds it - the statement does not speak of Pkey)         | kept out
+Pevent: no timing keys in its event (Event.silent stretches by them)     | kept out
+failed first play leaves its control list: genuine
+  (proposed_fixes/C14-failed-first-play-keeps-control-list.md)           | reported
+reset of a playing player on a TempoClock forgets the clock: genuine
+  (proposed_fixes/C14-reset-while-playing-forgets-clock.md)              | reported
 """
 ASSUMPTIONS = [
     "vf/model_events.py is the meaning of 'documented chains' and of the "
@@ -135,6 +222,14 @@ ASSUMPTIONS = [
     "(multiples of 1/16) are exact, off-grid cases contain no Pdur",
     "exceptions inside scheduled players are observed through the "
     "sc3.base.clock logger",
+    "fault histories: the keys an event object holds after a failed play "
+    "(chain keys the user never gave, msg_params without is_playing) are "
+    "read for the NAME of the mechanism only; the verdict is the traffic "
+    "/ look-up difference against vf/model_events.py",
+    "player control: vf/model_events.py controlled() is the meaning of "
+    "pause / resume / reset / mute (PauseStream / EventStreamPlayer help); "
+    "all deltas are multiples of 1/64, control calls lie at odd multiples "
+    "of 1/1024 (exact in binary floats)",
 ]
 # monitors added in round 7 (histories with every dict method / derived
 # objects; Rest objects in every key): quick minimum, thorough = 15 x
@@ -165,6 +260,47 @@ _NEW_MIN = {
     'tl_rests_with_rest_object_in_dur-or-pitch-source_key': 500,
     'tl_rest_in_prototype_event_cases': 20,
 }
+# monitors added in round 8 (failed plays followed by continued use; player
+# control; Pkey / Pevent / Pchain.chain; db / velocity look-ups; players
+# beside a failing event): quick minimum, thorough = 15 x
+_NEW_MIN8 = {
+    'fault_plays_raised': 1500,
+    'fault_first_play_of_the_object_raised': 500,
+    'fault_raised_in_control-list': 600,
+    'fault_raised_in_message-encoder': 300,
+    'fault_raised_in_bundle-builder': 100,
+    'fault_raised_in_pitch-chain': 200,
+    'fault_raised_in_after-the-control-list': 250,
+    **{f'fault_kind_raised_{k}': v for k, v in (
+        ('fn-missing-key', 300), ('fn-raises', 200), ('unencodable', 200),
+        ('too-big', 100), ('bad-add-action', 150), ('bad-group', 70),
+        ('bad-server', 70), ('bad-synth-lib', 70), ('bad-pitch', 200),
+        ('bad-db', 20), ('fn-chain-key', 10))},
+    'fault_plays_after_a_play_that_raised_checked': 1500,
+    'fault_plays_after_several_failed_plays_checked': 400,
+    'fault_plays_of_a_copy_of_a_failed_object_checked': 200,
+    'fault_lookups_after_repair_compared': 4000,
+    'control_cases_ok': 600,
+    'control_events_after_resume_or_restart_checked': 1200,
+    'control_muted_events_silent': 250,
+    'control_restarts_checked': 600,
+    **{f'control_{k}_with_effect': v for k, v in (
+        ('pause', 250), ('resume', 150), ('play', 70), ('reset', 250),
+        ('reset-play', 150), ('play-reset', 200), ('stop', 100),
+        ('mute', 130), ('unmute', 50))},
+    'control_clock_tempo': 180, 'control_clock_system': 180,
+    'control_clock_default': 180,
+    'entry_cases_ok': 300, 'entry_pkey': 250, 'entry_pevent': 250,
+    'entry_pchain-chain': 80, 'entry_pchain-flat': 8,
+    'pattern_fault_cases_ok': 120,
+    'pattern_fault_players_that_raised': 200,
+    'pattern_fault_kind_unencodable': 50,
+    'pattern_fault_kind_bad-add-action': 25,
+    'pattern_fault_kind_bad-pitch': 25, 'pattern_fault_kind_too-big': 15,
+    'chain_db_velocity_lookups_compared': 50000,
+    'chain_db_from_amp': 3000, 'chain_db_from_velocity': 1500,
+    'chain_velocity_from_amp': 3000, 'chain_velocity_from_db': 1500,
+}
 MIN_COUNTERS = {
     'quick': {'chain_lookups_compared': 10000, 'scale_keys_compared': 3000,
               'play_s_new_checked': 5000, 'play_gate_off_checked': 2000,
@@ -183,7 +319,8 @@ MIN_COUNTERS = {
               'tl_repeated_embedding_s_new_checked': 2000,
               'tl_reuse_cut-then-full': 40, 'tl_reuse_players-overlap': 40,
               'tl_reuse_stop-replay': 40, 'tl_reuse_par-twice': 20,
-              **{k: v for k, v in _NEW_MIN.items()}},
+              **{k: v for k, v in _NEW_MIN.items()},
+              **_NEW_MIN8},
     'thorough': {'chain_lookups_compared': 300000, 'scale_keys_compared': 100000,
                  'play_s_new_checked': 80000, 'play_gate_off_checked': 30000,
                  'play_no_gate_checked': 30000,
@@ -203,7 +340,8 @@ MIN_COUNTERS = {
                  'tl_repeated_embedding_s_new_checked': 40000,
                  'tl_reuse_cut-then-full': 800, 'tl_reuse_players-overlap': 800,
                  'tl_reuse_stop-replay': 800, 'tl_reuse_par-twice': 400,
-                 **{k: v * 15 for k, v in _NEW_MIN.items()}},
+                 **{k: v * 15 for k, v in _NEW_MIN.items()},
+                 **{k: v * 15 for k, v in _NEW_MIN8.items()}},
 }
 
 
@@ -212,10 +350,13 @@ def plan(tier, seed):
     # budgets are in cases AND seconds: on an idle 16-core host quick takes
     # ~15 s and thorough ~6 min; on a loaded one the `secs` cap ends the shards
     secs = 40 if q else 570
-    sizes = {'chain': (120000, 2) if q else (3600000, 3),
+    # 16 shards: one wave of the driver's 16 workers
+    sizes = {'chain': (120000, 2) if q else (3600000, 2),
              'scale': (30000, 1) if q else (1000000, 1),
-             'play': (40000, 5) if q else (2100000, 6),
-             'timeline': (40000, 8) if q else (900000, 6)}
+             'play': (40000, 3) if q else (1600000, 4),
+             'timeline': (40000, 7) if q else (900000, 6),
+             'fault': (12000, 1) if q else (300000, 1),
+             'control': (12000, 2) if q else (300000, 2)}
     shards = []
     for kind, (total, parts) in sizes.items():
         for p, (f, n) in enumerate(split(total, parts)):
@@ -223,7 +364,7 @@ def plan(tier, seed):
                            'first_case': f, 'n': n, 'secs': secs,
                            'hard_timeout': secs + 180, 'part': p})
     # interleave the kinds: the evidence keeps the samples of the first shards
-    order = ['timeline', 'play', 'chain', 'scale']
+    order = ['timeline', 'play', 'fault', 'control', 'chain', 'scale']
     shards.sort(key=lambda sh: (sh['part'], order.index(sh['kind'])))
     return shards
 
@@ -256,7 +397,7 @@ def _flat_kinds(p, out=None):
     if p[0] in ('ppar', 'pseq'):
         for c in p[1]:
             _flat_kinds(c, out)
-    elif p[0] in ('pchain', 'pdur', 'pdelta', 'pn'):
+    elif p[0] in ('pchain', 'pdur', 'pdelta', 'pn', 'pevent'):
         _flat_kinds(p[2], out)
     return out
 
@@ -266,7 +407,8 @@ def _flat_kinds(p, out=None):
 def run_shard(spec, acc):
     kind = spec['shard']['kind']
     {'chain': run_chain, 'scale': run_scale, 'play': run_play,
-     'timeline': run_timeline}[kind](spec, acc)
+     'timeline': run_timeline, 'fault': run_fault,
+     'control': run_control}[kind](spec, acc)
 
 
 def _chain_lookups(acc, i, e, ev, res, prev=None, ctx=None):
@@ -325,6 +467,44 @@ def _chain_lookups(acc, i, e, ev, res, prev=None, ctx=None):
             k = f'C14/key-chain-differs/{key}/from-{src}'
         acc.violation(k, dict(ctx, case=i, event=ev, key=key, got=g,
                               expected=exp))
+    # the other two units of the amplitude (AmplitudeKeys' db / velocity
+    # functions)
+    for key, exp, slack in run.amp_reverse_lookups(ev, res):
+        try:
+            got = e(key)
+            g = float(got)
+        except Exception as x:      # noqa
+            acc.violation(raise_key('key-chain-history' if hist else
+                                    'key-chain', x),
+                          dict(ctx, case=i, event=ev, key=key,
+                               tb=short_tb(x)))
+            return False
+        acc.count('chain_db_velocity_lookups_compared')
+        acc.count(f'chain_{key}_from_'
+                  + ('explicit' if key in ev else res.amp_source))
+        if run.close(g, float(exp), 1e-9, 1e-9) or (
+                slack and abs(g - exp) < slack + 1e-9):
+            continue
+        stale = False
+        if hist:
+            # right for an earlier key set of the object: a history defect;
+            # otherwise the conversion itself differs (same key as without
+            # a history)
+            import math
+            for p_ in prev:
+                old = (127.0 * p_.amp if key == 'velocity' else
+                       20.0 * math.log10(p_.amp) if p_.amp > 0 else -math.inf)
+                if run.close(g, old, 1e-9, 1e-9) or (
+                        slack and abs(g - old) < slack + 1e-9):
+                    stale = True
+        k = ('C14/key-chain-history/value-of-earlier-key-set-returned/after-'
+             + ctx.get('mclass', 'edit') if stale else
+             f'C14/key-chain-differs/{key}/from-'
+             + ('explicit' if key in ev else res.amp_source))
+        acc.violation(k, dict(ctx, case=i, event=ev, key=key, got=g,
+                              expected=exp))
+        if hist:
+            return False
     return True
 
 
@@ -579,6 +759,388 @@ def run_play(spec, acc):
         if not acc.samples and len(prog['steps']) <= 2 and not bad:
             acc.sample({'case': i, 'program': prog,
                         'score': [[t, m.plain()] for t, m in cap.raw]})
+
+
+def _fault_diag(infos):
+    """Mechanism of a difference after failed plays, from what the failed
+    plays left in the event object (most specific first)."""
+    for f in infos:
+        if f['left'] or f['changed']:
+            # a chain key the user never gave, or one whose value is not the
+            # user's any more
+            return 'failed-play-altered-key/' + (f['left'] + f['changed'])[0]
+    for f in infos:
+        if f['stale_list']:
+            return 'event-keeps-control-list-of-the-failed-play'
+    return None
+
+
+def run_fault(spec, acc):
+    """Fault histories: plays of event objects that FAIL half way (see
+    c14_gen.fault_edit for the kinds), followed by repair and continued use of
+    the same object / of copies of it.  Every play of an event whose keys are
+    numbers again must send what a fresh event with these keys sends; the
+    look-ups after the repair resolve from the user's keys."""
+    from vf import c14_gen as gen, c14_run as run, model_events as me
+    insts, info, groups = _setup(spec, 'fault')
+    tags = itertools.count(1)
+    for i in iter_cases(spec):
+        rng = case_rng(spec['seed'], 'C14', 'fault', i)
+        prog = gen.fault_program(rng, insts, tags)
+        acc.case(h64(repr(prog)), nontrivial=True)
+        cap, times = run.run_play_program(prog, groups)
+        faults = {f['tag']: f for f in cap.extra.get('faults', [])}
+        for f in faults.values():
+            acc.count('fault_plays')
+            if f['raised']:
+                acc.count('fault_plays_raised')
+                acc.count(f"fault_raised_in_{f['phase']}")
+                if f['first_play']:
+                    acc.count('fault_first_play_of_the_object_raised')
+                for k in f['kinds']:
+                    acc.count(f'fault_kind_raised_{k}')
+            else:
+                acc.count('fault_plays_did_not_raise')
+        diag_all = _fault_diag(list(faults.values()))
+        err = cap.raised or (cap.task_errors[0][1] if cap.task_errors else None)
+        if cap.raised is not None or cap.task_errors:
+            # a play of an event whose keys are all numbers raised
+            n_played = len(times)
+            st = prog['steps'][min(n_played, len(prog['steps'])) - 1]
+            infos = [faults[t] for t in st.get('after_fault', [])
+                     if t in faults]
+            diag = _fault_diag(infos)
+            if diag:
+                acc.violation(f'C14/play-after-failed-play/{diag}',
+                              {'case': i, 'raised': short_tb(err) if err
+                               is not None else cap.task_errors[0][0],
+                               'failed_plays': infos, 'program': prog})
+            elif st.get('after_fault'):
+                acc.violation(raise_key('play-after-failed-play', err)
+                              if err is not None else
+                              'C14/play-after-failed-play-raises/logged-error',
+                              {'case': i, 'tb': short_tb(err) if err
+                               is not None else None, 'program': prog})
+            else:
+                _report_raises(acc, 'play-history', cap, i, {'program': prog})
+            continue
+        ex = run.expect_program(prog, times, info, groups)
+        bad = run.compare(ex, cap, acc, 'fault', prog['offgrid'])
+        by_tag = {n['tag']: n for n in ex.notes}
+        for n in ex.notes:
+            if n['after_fault'] and 'id' in n:
+                acc.count('fault_plays_after_a_failed_play_checked')
+                if len(n['after_fault']) > 1:
+                    acc.count('fault_plays_after_several_failed_plays_checked')
+                if n['op'] == 'copy':
+                    acc.count('fault_plays_of_a_copy_of_a_failed_object_checked')
+                if any(faults.get(t, {}).get('raised') for t in n['after_fault']):
+                    acc.count('fault_plays_after_a_play_that_raised_checked')
+        # look-ups between the repair and the play
+        for idx, got in cap.extra.get('peeks', []):
+            st = prog['steps'][idx]
+            evx = me.effective(st['event'])
+            res = me.resolve(evx)
+            infos = [faults[t] for t in st.get('after_fault', []) if t in faults]
+            for key, exp in run.wanted_lookups(evx, res):
+                if key not in got:
+                    continue
+                acc.count('fault_lookups_after_repair_compared'
+                          if infos else 'fault_lookups_compared')
+                try:
+                    ok = run.close(float(got[key]), float(exp))
+                except Exception:       # noqa
+                    ok = False
+                if not ok:
+                    diag = _fault_diag(infos) or (
+                        'lookup-differs' if infos else None)
+                    acc.violation(
+                        f'C14/play-after-failed-play/{diag}' if diag else
+                        'C14/play-history/lookup-after-edit-differs/'
+                        + ('pitch' if key in ('midinote', 'freq') else
+                           'amp' if key == 'amp' else 'dur'),
+                        {'case': i, 'step': idx, 'key': key,
+                         'got': repr(got[key]), 'expected': exp,
+                         'failed_plays': infos, 'program': prog})
+                    break
+        for k, detail in bad:
+            tag = detail.get('tag', detail.get('tag_now'))
+            if tag is None and isinstance(detail.get('event'), dict):
+                tag = detail['event'].get('tag')
+            n = by_tag.get(tag)
+            if n is not None:
+                infos = [faults[t] for t in n['after_fault'] if t in faults]
+                diag = _fault_diag(infos)
+                after = bool(n['after_fault'])
+            else:       # not attributed to one play: the case's failed plays
+                infos = list(faults.values())
+                diag, after = diag_all, True
+            short = k.split('/', 1)[1] if k.startswith('C14/') else k
+            if diag:
+                key = f'C14/play-after-failed-play/{diag}'
+            elif after:
+                key = f'C14/play-after-failed-play/differs/{short}'
+            else:
+                key = k if k.startswith('C14/') else f'C14/play/{k}'
+            acc.violation(key, dict(detail, case=i, difference=k,
+                                    failed_plays=infos, program=prog))
+        if not bad and acc.want_sample() and len(prog['steps']) <= 4:
+            acc.sample({'case': i, 'program': prog,
+                        'failed_plays': list(faults.values()),
+                        'score': [[t, m.plain()] for t, m in cap.raw]})
+
+
+def _diff_class(k):
+    for pre, cls in (('missing-s_new', 'event-not-played'),
+                     ('time/', 'event-at-wrong-time'),
+                     ('extra-s_new', 'event-played-again'),
+                     ('duplicate-s_new', 'event-played-again'),
+                     ('muted-player-sent-traffic', 'muted-event-played'),
+                     ('rest-sent-traffic', 'rest-played'),
+                     ('unexpected-traffic', 'unexpected-traffic'),
+                     ('total-duration', 'end-of-player-differs'),
+                     ('gate-off', 'gate-off-differs'),
+                     ('mono-release', 'mono-release-differs')):
+        if k.startswith(pre):
+            return cls
+    return 'message-content-differs'
+
+
+def _control_diff_class(k):
+    """Coarse class of a difference of a player-control history: the time
+    line (an event missing, late, early, twice, the end of the player), a
+    muted event that was sent, or the content of a message."""
+    c = _diff_class(k)
+    if c in ('muted-event-played', 'message-content-differs'):
+        return c
+    return 'time-line-differs'
+
+
+def _diff_time(k, d, ex):
+    """Time of a difference (for the diagnosis: after which control call)."""
+    if 'expected_at' in d:
+        return d['expected_at']
+    if isinstance(d.get('expected'), (int, float)) and k.startswith('time/'):
+        return d['expected']
+    if 't' in d:
+        return d['t']
+    for n in ex.notes:
+        if n['tag'] == d.get('tag'):
+            return n['time']
+    return None
+
+
+def run_control(spec, acc):
+    """Three kinds of cases (c14_gen.control_shard_case):
+    player control - one EventStreamPlayer under a history of mute / unmute /
+        pause / resume / play / reset / stop / reset + play calls;
+    entry points   - Pkey columns, Pevent, Pchain built by .chain() inside the
+        ordinary compositions, played once;
+    pattern faults - a player whose k-th event fails while other players run
+        on the same pattern objects and prototype event."""
+    from vf import c14_gen as gen, c14_run as run, model_events as me
+    insts, info, groups = _setup(spec, 'control')
+    tags = itertools.count(1)
+    for i in iter_cases(spec):
+        rng = case_rng(spec['seed'], 'C14', 'control', i)
+        case = gen.control_shard_case(rng, insts, tags)
+        acc.case(h64(repr(case)), nontrivial=True)
+        form = case.get('form', 'entry')
+        if form == 'control':
+            ex = run.expect_control(case, info, groups)
+            if ex is None:
+                acc.count('control_cases_skipped_action_at_a_wake_up')
+                continue
+            cap = run.run_control_case(case)
+            if _report_raises(acc, 'player-control', cap, i,
+                              {'control_case': case}):
+                continue
+            bad = run.compare(ex, cap, acc, 'control', False)
+            acts = case['controls']
+            if bad:
+                # after which control call does the first difference lie
+                times = [t for t in (_diff_time(k, d, ex) for k, d in bad)
+                         if t is not None]
+                t0 = min(times) if times else None
+                first = sorted(bad, key=lambda kd: (
+                    _diff_time(kd[0], kd[1], ex) or float('inf')))[0]
+                cls = _control_diff_class(first[0])
+                # the last call before it that moves the time line (for a
+                # muted event that was sent: the last mute / unmute)
+                group = ('mute', 'unmute') if cls == 'muted-event-played' \
+                    else ('pause', 'resume', 'play', 'reset', 'stop',
+                          'reset-play', 'play-reset')
+                before = [a for a in acts if a['do'] in group and (
+                    t0 is None or a['at'] + case['latency'] <= t0 + 1e-9)]
+                last = before[-1]['do'] if before else 'play'
+                where = f'after-{last}'
+                if case['clock'] == 'tempo':
+                    # the same history on SystemClock (the expectation does
+                    # not depend on the clock): a difference that is tied to
+                    # the kind of clock is one mechanism whatever call shows it
+                    c2 = dict(case, clock='system')
+                    cap2 = run.run_control_case(c2)
+                    if cap2.raised is None and not cap2.task_errors and \
+                            not run.compare(ex2 := run.expect_control(
+                                c2, info, groups), cap2, run._NoCount(),
+                                'control', False):
+                        where = 'on-a-tempo-clock-only'
+                        if any(_control_diff_class(k) == 'time-line-differs'
+                               for k, _ in bad):
+                            cls = 'time-line-differs'
+                acc.violation(
+                    f'C14/player-control/{where}/{cls}',
+                    {'case': i, 'control_case': case, 'first_difference_at': t0,
+                     'differences': sorted({k for k, _ in bad})[:8],
+                     'first': first[1], 'player_ended_at': cap.elapsed})
+                continue
+            acc.count('control_cases_ok')
+            acc.count(f"control_family_{case['family']}")
+            acc.count(f"control_clock_{case['clock']}")
+            c = ex.control
+            for do, n_ in c.effect.items():
+                acc.count(f'control_{do}_with_effect', n_)
+            for a in acts:
+                acc.count(f"control_calls_{a['do']}")
+            acc.count('control_muted_events_silent', ex.muted)
+            acc.count('control_restarts_checked', c.runs - 1)
+            # events played after the first call that moved or restarted the
+            # player's time line
+            moved = [a['at'] for a in acts if a['do'] in (
+                'resume', 'play', 'reset', 'reset-play', 'play-reset')]
+            if moved:
+                acc.count('control_events_after_resume_or_restart_checked',
+                          sum(1 for n in ex.notes
+                              if n['time'] - case['latency'] > moved[0]))
+            if acc.want_sample() and len(ex.notes) <= 8 and len(acts) >= 2:
+                acc.sample({'case': i, 'control_case': case,
+                            'score': [[t, m.plain()] for t, m in cap.raw]})
+            continue
+        if form == 'pattern-fault':
+            ex = run.expect_pattern_fault(case, info, groups)
+            cap = run.run_pattern_fault_case(case)
+            acc.count('pattern_fault_cases')
+            if cap.raised is not None or \
+                    len(cap.task_errors) > ex.failing_players:
+                if cap.raised is None:
+                    cap.task_errors = cap.task_errors[ex.failing_players:]
+                _report_raises(acc, 'pattern-fault', cap, i,
+                               {'fault_case': case})
+                continue
+            acc.count('pattern_fault_players_that_raised',
+                      len(cap.task_errors))
+            bad = run.compare(ex, cap, acc, 'pfault', False)
+            if bad:
+                acc.violation(
+                    'C14/players-beside-a-failing-event/'
+                    + _diff_class(bad[0][0]),
+                    {'case': i, 'fault_case': case,
+                     'differences': sorted({k for k, _ in bad})[:8],
+                     'first': bad[0][1]})
+                continue
+            acc.count('pattern_fault_cases_ok')
+            acc.count(f"pattern_fault_kind_{case['fault']['kind']}")
+            acc.count('pattern_fault_plays_of_the_failing_pattern',
+                      ex.failing_players)
+            continue
+        # entry points
+        pat = case['pattern']
+        kinds = _flat_kinds(pat)
+        failed, cap, ex, bad = _entry_run(case, info, groups, acc, 'entry')
+        if failed:
+            culprit = _entry_culprit(case, info, groups)
+            if cap.raised is not None or cap.task_errors:
+                err = cap.raised or cap.task_errors[0][1]
+                acc.violation(
+                    f'C14/timeline-entry-raises/{culprit}/' + (
+                        exc_key(err) if err is not None else 'logged-error'),
+                    {'case': i, 'timeline_case': case,
+                     'tb': short_tb(err) if err is not None else
+                     cap.task_errors[0][0]})
+                continue
+            first = bad[0]
+            acc.violation(
+                f'C14/timeline-entry/{culprit}/'
+                + _control_diff_class(first[0].split('/', 2)[-1]
+                                      if first[0].startswith('C14/')
+                                      else first[0]),
+                {'case': i, 'timeline_case': case,
+                 'differences': sorted({k for k, _ in bad})[:8],
+                 'first': first[1]})
+            continue
+        acc.count('entry_cases_ok')
+        for e_ in case['entry']:
+            acc.count(f'entry_{e_}')
+        for k in kinds:
+            acc.count(f'entry_with_{k}')
+        if acc.want_sample() and len(ex.notes) <= 6 and len(case['entry']) > 1:
+            acc.sample({'case': i, 'timeline_case': case,
+                        'score': [[t, m.plain()] for t, m in cap.raw]})
+
+
+def _entry_run(case, info, groups, acc, mon):
+    """(failed, capture, expectation, differences) of one entry-point case."""
+    from vf import c14_run as run
+    cap, start = run.run_timeline_case(case)
+    case['expanded'] = case['pattern']
+    try:
+        ex = run.expect_timeline(case, start, info, groups)
+    finally:
+        del case['expanded']
+    if cap.raised is not None or cap.task_errors:
+        return True, cap, ex, []
+    bad = run.compare(ex, cap, acc, mon, False)
+    return bool(bad), cap, ex, bad
+
+
+def _neutralise(p, feat):
+    """The same pattern without one entry point: Pkey columns written out as
+    the values they copy, Pchain objects built by the constructor."""
+    from vf import model_events as me
+    kind = p[0]
+    if kind in ('pbind', 'pmono'):
+        m = p[1] if kind == 'pbind' else p[2]
+        if feat != 'pkey' or not any(me._is_key_column(v) for v in m.values()):
+            return p
+        rows = me._bind_events(m)
+        if not rows:
+            return p
+        m2 = {k: (['seq', [r[k] for r in rows], 1, 0]
+                  if me._is_key_column(v) else v) for k, v in m.items()}
+        return ['pbind', m2] if kind == 'pbind' else ['pmono', p[1], m2]
+    if kind == 'ppar':
+        return ['ppar', [_neutralise(c, feat) for c in p[1]]]
+    if kind == 'pchain':
+        how = p[3] if len(p) > 3 else 'ctor'
+        return ['pchain', p[1], _neutralise(p[2], feat),
+                'ctor' if feat == 'pchain' else how]
+    if kind == 'pevent':
+        return ['pevent', p[1], _neutralise(p[2], feat), p[3]]
+    if kind in ('pdur', 'pdelta'):
+        return [kind, p[1], _neutralise(p[2], feat)]
+    return p
+
+
+def _entry_culprit(case, info, groups):
+    """Which entry point a difference belongs to: the one without which the
+    case passes (tried in turn: Pkey written out, Pchain built by the
+    constructor); Pevent when neither helps."""
+    from vf import c14_run as run
+    feats = sorted({'pchain-chain' if f.startswith('pchain') else f
+                    for f in case['entry']})
+    if len(feats) <= 1:
+        return feats[0] if feats else 'none'
+    for feat, name in (('pkey', 'pkey'), ('pchain', 'pchain-chain')):
+        if name not in feats:
+            continue
+        c2 = dict(case, pattern=_neutralise(case['pattern'], feat))
+        try:
+            failed = _entry_run(c2, info, groups, run._NoCount(), 'entry')[0]
+        except Exception:       # noqa
+            continue
+        if not failed:
+            return name
+    return 'pevent' if 'pevent' in feats else feats[0]
 
 
 def _rest_valued_delta_onsets(case, tl):
